@@ -212,6 +212,19 @@ impl AluOutput {
     }
 }
 
+#[cfg(any(kani, feature = "verif-hooks"))]
+impl AluOutput {
+    /// Verification hook: build an ALU latch from its four parts.
+    pub fn verif_from_parts(output: u8, carry_out: bool, zero_out: bool, negative_out: bool) -> Self {
+        AluOutput {
+            output,
+            carry_out,
+            zero_out,
+            negative_out,
+        }
+    }
+}
+
 impl Default for AluSelect {
     fn default() -> Self {
         AluSelect::from_u8(0).expect("infallible")
